@@ -97,6 +97,17 @@ CHECKS['C03'] = dict(
     note='E1 uses concrete non-overlapping names; the suffix-overlap rewriting defect found by E2 is a listed known finding.',
     design='DESIGN.md section 2 C03')
 
+CHECKS['C05'] = dict(
+    engine='symx+smt-lemmas',
+    technique='SMT (strings+LIA, cvc5/z3) over sort keys lifted from the AST of the real functions + bounded symbolic execution of the real graph over document shapes and iteration count',
+    text='E3: for each of the four places that order loop iterations the key expression is lifted from the current source and cvc5 decides '
+         'that it is strictly increasing in the iteration number for all 0 <= i < j <= 999 (counterexamples such as (9, 80) are replayed on the '
+         'lifted lambda). E1: the real instantiate_dowhile_next_iteration is driven for k = 1..12 on a graph loaded from a scratch package for '
+         '16 document shapes; nodes, edges, loop-carried wiring, placeholder metadata, loop state and reference resolution are checked after every step.',
+    note='cvc5 1.4 (wheel) decides, cvc5 1.0 (binary) cross-checks, z3 5.1 answers unknown on these string queries; rootStorage stubbed; '
+         'document shapes are a finite family.',
+    design='DESIGN.md section 2 C05')
+
 NOT_APPLICABLE = {
     'C07': 'round trip through the real file system, PyYAML (C) and Experiment construction: nothing on the path can be made symbolic; the technique would degenerate to example testing',
     'C15': 'quantifies over processes with different hash seeds / directory listing orders, which are not values inside one symbolic execution',
